@@ -3,6 +3,7 @@ package main
 import (
 	"encoding/json"
 	"fmt"
+	"github.com/lidofinance/dc4bc/client/api/dto"
 	"strings"
 
 	ctypes "github.com/lidofinance/dc4bc/client/types"
@@ -206,6 +207,19 @@ func reinitCases(c *Ctx, w *World, prop string) []HistCase {
 			}
 		}})
 	}
+	// (f'') ... and a batch proposal for THIS round that lay on the board while the key generation was
+	// under way (a stranger's: every original node refused it) must not end the replay either
+	{
+		early := w.Msg(roundOld, "event_signing_start", requests.SigningBatchProposalStartRequest{BatchID: "premature", ParticipantId: 0, CreatedAt: T(15), SigningTasks: w.Tasks("premature")}, "stranger", "", "stranger", NOWMARK, "premature-start").In.Msg
+		withStart := *body
+		half := len(body.Messages) / 2
+		withStart.Messages = append(append(append([]storage.Message{}, body.Messages[:half]...), early), body.Messages[half:]...)
+		cases = append(cases, HistCase{Kind: "reinit-premature-signing-start", User: me, Items: []Item{w.ReinitItem(roundOld, &withStart, nil, "reinit-premature-signing-start")}, Check: func(o RunObs) {
+			if !strings.Contains(roundProj(o.After, roundOld), "stage_signing_idle") {
+				fail("reinit-incomplete", "a reinit file that contains a premature signing proposal of its own round does not bring the round to signing-ready", o)
+			}
+		}})
+	}
 	// (a) plain reinit on a fresh node, and (b) the same reinit twice
 	cases = append(cases, HistCase{Kind: "reinit-fresh", User: me, Items: []Item{w.ReinitItem(roundOld, body, nil, "reinit-ok")}})
 	cases = append(cases, HistCase{Kind: "reinit-twice", User: me, Items: []Item{w.ReinitItem(roundOld, body, nil, "reinit-ok"), w.ReinitItem(roundOld, body, nil, "reinit-again")}, Check: func(o RunObs) {
@@ -213,5 +227,60 @@ func reinitCases(c *Ctx, w *World, prop string) []HistCase {
 			fail("reinit-not-idempotent", "a second reinit_dkg for an existing round changed the node's state", o)
 		}
 	}})
+	// (g) the answer to a reinit operation names ANOTHER round the node holds (id, type, payload
+	// unchanged): the round is part of what was issued - refused, nothing changes (before the repair
+	// the other round's public polynomial was overwritten and the reinit operation retired)
+	// (h) a reinit message that embeds no messages leaves a round that has not reached the key
+	// generation: the answer to its operation is refused with an error (it used to dereference the
+	// missing payload)
+	{
+		roundY := "round-reinit-other"
+		hY := w.Honest(roundY, me)
+		hY = hY[:len(dkgPart(hY))] // the finished key generation of another round
+		known := map[string]*ctypes.Operation{}
+		reinitOp := func(prefix []Item) *ctypes.Operation {
+			probe := NewNodeEnv(newEnvDir(c), me)
+			defer probe.Close()
+			for _, it := range prefix {
+				applyItem(probe, it)
+			}
+			for _, o := range pendingOps(probe) {
+				if string(o.Type) == "reinit_dkg" {
+					known[o.ID] = o
+					return o
+				}
+			}
+			return nil
+		}
+		prefixG := append(append([]Item{}, hY...), w.ReinitItem(roundOld, body, nil, "reinit-ok"))
+		if o := reinitOp(prefixG); o != nil {
+			d := &dto.OperationDTO{ID: o.ID, Type: string(o.Type), Payload: o.Payload, CreatedAt: o.CreatedAt, DkgID: roundY,
+				Event: "operation_processed_successfully", ExtraData: []byte("polynomial for another round")}
+			items := append(append([]Item{}, prefixG...), resultItem(d, known, "reinit-answer-names-other-round"))
+			cases = append(cases, HistCase{Kind: "reinit-answer-other-round", User: me, Items: items, Check: func(o RunObs) {
+				last := o.Classes[len(o.Classes)-1]
+				if last == "panic" {
+					fail("api-panic", "the answer to a reinit operation naming another round crashes the node", o)
+				} else if last != "err" || o.Before != o.After {
+					fail("reinit-answer-applied-to-other-round", "the answer to a reinit operation that names another round was accepted or had an effect", o)
+				}
+			}})
+		}
+		empty := &ctypes.ReDKG{DKGID: "round-reinit-empty", Threshold: body.Threshold, Participants: body.Participants}
+		prefixH := []Item{w.ReinitItem("round-reinit-empty", empty, nil, "reinit-no-messages")}
+		if o := reinitOp(prefixH); o != nil {
+			d := &dto.OperationDTO{ID: o.ID, Type: string(o.Type), Payload: o.Payload, CreatedAt: o.CreatedAt, DkgID: o.DKGIdentifier,
+				Event: "operation_processed_successfully", ExtraData: []byte("polynomial")}
+			items := append(append([]Item{}, prefixH...), resultItem(d, known, "reinit-answer-without-key-generation"))
+			cases = append(cases, HistCase{Kind: "reinit-answer-no-dkg", User: me, Items: items, Check: func(o RunObs) {
+				last := o.Classes[len(o.Classes)-1]
+				if last == "panic" {
+					fail("api-panic", "the answer to the operation of a reinit message that embeds no messages crashes the node (missing key-generation payload)", o)
+				} else if last != "err" || o.Before != o.After {
+					fail("reinit-answer-without-key-generation-accepted", "the answer to a reinit operation of a round that has not reached the key generation was accepted or had an effect", o)
+				}
+			}})
+		}
+	}
 	return cases
 }
